@@ -1,5 +1,6 @@
 import Model.Paging
 import Model.PagingHist
+import Model.PagingRetry
 import Driver.Util
 namespace Driver.C15
 open Util Paging
@@ -64,6 +65,7 @@ def showFail : Option Fail → String
   | some .timeout => "timeout"
   | some .ctx => "ctx"
   | some .exhausted => "exhausted"
+  | some .unknownRetry => "unknownrt"
 
 def showReq (ident0 : Nat) : Req → String
   | .prepare => "P"
@@ -96,6 +98,56 @@ def sessAnswer (ver consumer pf ps kind first script : String) : String :=
     let reqs := if (ver.splitOn "n").length > 1 then o.reqs.filter Req.isExec else o.reqs
     s!"rows={rows} err={showFail o.err} reqs={showReqs 1 reqs}"
   | _, _, _ => "bad-op"
+
+
+/-! ## `rsess` / `rsessx` op (retry tier: faults at page fetches × retry decisions):
+    `rsess v<n>[n<nodes>] <consumer> <prefetch> <pagesize> <q|x|xs|xd> <first> <policy> <script>`
+    script entries as for `sess`, a failure may carry `/<d>` = the scripted policy's answer for that failed
+    attempt (s stop = Attempt false, r Retry, n RetryNextHost, i Ignore, t Rethrow, u an unknown RetryType);
+    `V` = a RESULT of kind void.  policy: none | scr | b<k> | simple<k> | down<k>, optional prefix `C`
+    (set on the ClusterConfig instead of the Query). -/
+
+def parseDec (s : String) : Option PagingRetry.Dec :=
+  if s == "s" then some .stop else if s == "r" then some .retry else if s == "n" then some .nextHost
+  else if s == "i" then some .ignore else if s == "t" then some .rethrow else if s == "u" then some .unknown else none
+
+def parseRReply (s : String) : Option PagingRetry.RReply :=
+  if s == "V" then some .void else
+  match s.splitOn "/" with
+  | [a] => (parseReply a).map PagingRetry.emb
+  | [a, d] =>
+    match parseReply a, parseDec d with
+    | some (.fail f), some dd => some (.fail f dd)
+    | _, _ => none
+  | _ => none
+
+def parsePolicy (s : String) : Option (Option PagingRetry.Policy) :=
+  let t := if s.startsWith "C" then (s.drop 1).toString else s
+  if t == "none" then some none
+  else if t == "scr" then some (some (PagingRetry.scripted none))
+  else if t.startsWith "simple" then (t.drop 6).toString.toNat?.map fun k => some (PagingRetry.simple k)
+  else if t.startsWith "down" then (t.drop 4).toString.toNat?.map fun k => some (PagingRetry.downgrading k)
+  else if t.startsWith "b" then (t.drop 1).toString.toNat?.map fun k => some (PagingRetry.scripted (some k))
+  else none
+
+def showAtts (l : List Nat) : String := if l.isEmpty then "-" else ",".intercalate (l.map toString)
+
+def rsessAnswer (ver consumer ps kind first policy script : String) : String :=
+  let vparts := ((ver.drop 1).toString).splitOn "n"
+  let nodes := match vparts with | [_, n] => n.toNat?.getD 0 | _ => 1
+  match ps.toInt?, parseState first, (script.splitOn ";").mapM parseRReply, parsePolicy policy with
+  | some pageSize, some fst, some sc, some pol =>
+    if !(kind == "q" || kind == "x" || kind == "xs" || kind == "xd") || nodes < 1 || nodes > 8 then "bad-op" else
+    let manualC := consumer == "manual"
+    let q : Qry := { ident := 1, prepared := kind != "q", skipMeta := kind == "xs", pageSize := pageSize,
+                     pageState := if manualC then fst.getD [] else [], disableAutoPage := manualC }
+    -- beyond the script the node answers every request with `script exhausted`
+    let sc := sc ++ List.replicate 12 (.fail .exhausted .stop)
+    let o := PagingRetry.runR pol nodes q manualC sc false 0 (nodes - 1) q
+    let rows := if consumer == "slicemap" && o.err.isSome then "nil" else showRows o.rows
+    let reqs := if nodes > 1 then o.reqs.filter Req.isExec else o.reqs
+    s!"rows={rows} err={showFail o.err} reqs={showReqs 1 reqs} att={showAtts o.atts}"
+  | _, _, _, _ => "bad-op"
 
 
 /-! ## `hist` op (one Query object, a history of setters / Iter() / Scan / cancel; keyed node):
@@ -372,6 +424,8 @@ def step (_ : Unit) (ws : List String) : Unit × String :=
   | ["sess", ver, consumer, pf, ps, kind, first, script] => sessAnswer ver consumer pf ps kind first script
   | ["sessx", ver, consumer, pf, ps, kind, first, script] => sessAnswer ver consumer pf ps kind first script
   | ["hist", vn, kind, consumer, scripts, steps] => histAnswer vn kind consumer scripts steps
+  | ["rsess", ver, consumer, _, ps, kind, first, policy, script] => rsessAnswer ver consumer ps kind first policy script
+  | ["rsessx", ver, consumer, _, ps, kind, first, policy, script] => rsessAnswer ver consumer ps kind first policy script
   | _ => "bad-op")
 
 def init : Unit := ()
